@@ -24,6 +24,16 @@ Theorem C03_chunking : forall chunks : list bytes,
   m3_finish (fold_left m3_write chunks m3_init) = token_new (murmur3_spec (concat chunks)).
 Proof. exact m3_chunking. Qed.
 
+(* the length premise is sufficient, not necessary: the length enters the hash only modulo 2^64
+   (xor followed by wrapping additions), so model and specification agree for EVERY list of
+   chunks.  (The model's total_len is an unbounded N; a Rust usize cannot count 2^64 bytes.) *)
+Theorem C03_chunking_all : forall chunks : list bytes,
+  m3_finish (fold_left m3_write chunks m3_init) = token_new (murmur3_spec (concat chunks)).
+Proof. exact m3_chunking_all. Qed.
+
+Theorem C03_feed_all : forall p (chunks : list bytes), feed p chunks = token_spec p (concat chunks).
+Proof. exact feed_chunking_all. Qed.
+
 (* for EVERY list of chunks the CDC hasher returns the CDC token of the concatenation *)
 Theorem C03_cdc_chunking : forall chunks : list bytes,
   cdc_finish (fold_left cdc_write chunks cdc_init) = cdc_token_spec (concat chunks).
@@ -112,6 +122,12 @@ Theorem C03_token : forall chk p ncols wire values,
   ps_calculate_token chk p ncols wire values = Ok (Some (spec_token p wire values)).
 Proof. exact ps_calculate_token_spec. Qed.
 
+Theorem C03_token_all : forall chk p ncols wire values,
+  wire <> [] -> key_ok ncols wire values ->
+  (length wire = 1%nat \/ Forall fits (spec_components wire values)) ->
+  ps_calculate_token chk p ncols wire values = Ok (Some (spec_token p wire values)).
+Proof. exact ps_calculate_token_spec_all. Qed.
+
 (* a component of a composite key that does not fit the 2-byte length is refused, never
    truncated; and that is the only error inside the quantifier *)
 Theorem C03_too_long : forall chk p ncols wire values,
@@ -180,6 +196,25 @@ Theorem C03_murmur3_table_last_row : forall r1 r2 ks t name (chunks : list bytes
   feed (prepared_partitioner (Some (r1 ++ ((ks, t), Some name) :: r2)) true (Some (ks, t))) chunks
   = murmur3_token_spec (concat chunks).
 Proof. exact murmur3_table_last_row. Qed.
+
+(* ... in both schema fetch modes that fetch anything: Minimal, and Full for a table that has
+   column rows.  (Disabled fetches nothing and a Full-mode table without column rows gets no
+   partitioner: both hash with Murmur3 - documented opt-out resp. degenerate table, modelled and
+   tied, see C03_ex_fetch_modes.) *)
+Theorem C03_cdc_table_fetch_modes : forall fm has_columns r1 r2 ks t name (chunks : list bytes),
+  (fm = FetchMinimal \/ (fm = FetchFull /\ has_columns = true)) ->
+  forallb (fun x => negb (row_is ks t x)) r2 = true -> ends_with name cdc_suffix = true ->
+  feed (session_partitioner fm (Some (r1 ++ ((ks, t), Some name) :: r2)) true has_columns (Some (ks, t))) chunks
+  = cdc_token_spec (concat chunks).
+Proof. exact cdc_table_fetch_modes. Qed.
+
+Theorem C03_murmur3_table_fetch_modes : forall fm has_columns r1 r2 ks t name (chunks : list bytes),
+  (fm = FetchMinimal \/ (fm = FetchFull /\ has_columns = true)) ->
+  forallb (fun x => negb (row_is ks t x)) r2 = true -> ends_with name murmur3_suffix = true ->
+  (Z.of_nat (length (concat chunks)) < 2 ^ 63)%Z ->
+  feed (session_partitioner fm (Some (r1 ++ ((ks, t), Some name) :: r2)) true has_columns (Some (ks, t))) chunks
+  = murmur3_token_spec (concat chunks).
+Proof. exact murmur3_table_fetch_modes. Qed.
 
 (* ---- typed values (serialize_values + C01's encoder) ----------------------------------- *)
 (* the typed calculate_token / compute_partition_key are the token / serialized key of the
@@ -427,6 +462,24 @@ Example C03_ex_chain :
   partitioners_get ex_rows ex_ks ex_log None = Some (Some cdc_class).
 Proof. repeat split; vm_compute; reflexivity. Qed.
 
+(* the fetch modes on the CDC table of ex_rows: Minimal and Full (with columns) find the CDC
+   partitioner, Disabled and a Full-mode table without column rows fall back to Murmur3 *)
+Example C03_ex_fetch_modes :
+  session_partitioner FetchMinimal (Some ex_rows) true false (Some (ex_ks, ex_log)) = PCdc /\
+  session_partitioner FetchFull (Some ex_rows) true true (Some (ex_ks, ex_log)) = PCdc /\
+  session_partitioner FetchFull (Some ex_rows) true false (Some (ex_ks, ex_log)) = PMurmur3 /\
+  session_partitioner FetchDisabled (Some ex_rows) true true (Some (ex_ks, ex_log)) = PMurmur3 /\
+  session_partitioner FetchMinimal (Some ex_rows) false true (Some (ex_ks, ex_log)) = PMurmur3.
+Proof. repeat split; vm_compute; reflexivity. Qed.
+
+(* beyond the i64 range of the length: `total_len as i64` wraps, Java's length does not, and the
+   final mixing still agrees (C03_chunking_all); here at total lengths 2^63 and 2^64 + 5 *)
+Example C03_ex_length_beyond_i64 :
+  m3_final 0 0 (2 ^ 63) = j_normalize (fst (j_final 0 0 (Z.of_N (2 ^ 63)))) /\
+  m3_final 7 (-9) (2 ^ 64 + 5) = j_normalize (fst (j_final 7 (-9) (Z.of_N (2 ^ 64 + 5)))) /\
+  m3_final 0 0 (2 ^ 63) = (-8108722261328812909)%Z.
+Proof. repeat split; vm_compute; reflexivity. Qed.
+
 (* a typed composite key (int, text) bound through markers in reverse order *)
 Example C03_ex_typed :
   typed_row [TNative NText; TNative NInt] [CVal (CText [0x61; 0x62]); CVal (CInt (-2))]
@@ -454,6 +507,9 @@ Example C03_ex_too_long :
 Proof. vm_compute. reflexivity. Qed.
 
 Print Assumptions C03_chunking.
+Print Assumptions C03_chunking_all.
+Print Assumptions C03_feed_all.
+Print Assumptions C03_token_all.
 Print Assumptions C03_cdc_chunking.
 Print Assumptions C03_cdc.
 Print Assumptions C03_cdc_stream_id.
@@ -476,6 +532,8 @@ Print Assumptions C03_cdc_table_chain.
 Print Assumptions C03_murmur3_table_chain.
 Print Assumptions C03_cdc_table_last_row.
 Print Assumptions C03_murmur3_table_last_row.
+Print Assumptions C03_cdc_table_fetch_modes.
+Print Assumptions C03_murmur3_table_fetch_modes.
 Print Assumptions C03_token_typed.
 Print Assumptions C03_typed_components.
 Print Assumptions C03_token_i64.
